@@ -75,6 +75,18 @@ def programs():
     return progs
 
 
+
+def align(names, rows, expected):
+    """rows with their columns put into the order of `expected` when the returned names are a permutation of it (the ORDER of result
+    columns is C05's subject and, after `group`, varies from call to call: listed C11 leak wildcard-equal-order-choice)"""
+    if names is None or rows is None:
+        return rows
+    low = [n.lower() for n in names]
+    if low != list(expected) and sorted(low) == sorted(expected) and len(set(low)) == len(low):
+        idx = [low.index(e) for e in expected]
+        return [[r[i] for i in idx] for r in rows]
+    return rows
+
 def expected(prog, db):
     a, b, c = db
     _, names, tf = TOPS[prog["top"]]
@@ -119,7 +131,8 @@ def run(ctx, targets=("sql.sqlite", "sql.generic"), classify=classify_listed, bi
                 ctx.count("append-shapes:rejected-by-compiler")
                 continue
             for db in DBS:
-                names, got, err = relgen.run_sqlite(SCHEMA, db, a["sql"].replace("UNION ALL", "UNION ALL"))
+                names, got, err = relgen.run_sqlite(SCHEMA, db, a["sql"])
+                got = align(names, got, p["out"])
                 ctx.case((p["prql"], str(db), t), nontrivial=bool(got))
                 why = None
                 if err is not None:
